@@ -486,8 +486,10 @@ theorem NaiveDate.le_antisymm {a b : NaiveDate} (h1 : a.le b = true) (h2 : b.le 
   rw [NaiveDate.le_iff] at h1 h2
   rw [NaiveDate.ext_iff']; omega
 
-/-- a time of day chrono can represent, not a leap-second representation -/
-def NaiveTime.Valid (t : NaiveTime) : Prop := t.h < 24 ∧ t.m < 60 ∧ t.s < 60 ∧ t.f < 1000000
+/-- a time of day chrono can represent (`from_hms_micro_opt` returns it); microseconds from
+1 000 000 on are chrono's representation of a leap second and need second 59 -/
+def NaiveTime.Valid (t : NaiveTime) : Prop :=
+  t.h < 24 ∧ t.m < 60 ∧ t.s < 60 ∧ (t.f < 1000000 ∨ (t.s = 59 ∧ t.f < 2000000))
 
 theorem fromHmsMicroOpt_eq (h m s f : Nat) :
     NaiveTime.fromHmsMicroOpt h m s f =
